@@ -80,24 +80,25 @@ const (
 
 // Decoded is what the reference decoder says about a frame.
 type Decoded struct {
-	Err        bool   // a mandatory header on the selected path is truncated or length-inconsistent
-	ErrLayer   string // which one
-	DontCare   bool   // error-vs-success is left open by the RFCs / the statement (DESIGN C02 guards)
-	PayloadID  int
-	SrcMAC     MAC
-	DstMAC     MAC
-	EtherType  uint16
-	SrcIP      netip.Addr
-	DstIP      netip.Addr
-	SrcPort    uint16
-	DstPort    uint16
-	OffIP4     int
-	OffIP6     int
-	OffUDP     int
-	OffTCP     int
-	OffPayload []int // acceptable start offsets of Frame.Payload()
-	End        int   // end of the decoded packet inside the frame: IPv4 total length / IPv6 40+payload length (bytes after it are link layer padding), else len(frame)
-	Proto      int   // IP protocol / next header, -1 if none
+	Err            bool   // a mandatory header on the selected path is truncated or length-inconsistent
+	ErrLayer       string // which one
+	DontCare       bool   // error-vs-success is left open by the RFCs / the statement (DESIGN C02 guards)
+	dontCareBefore bool
+	PayloadID      int
+	SrcMAC         MAC
+	DstMAC         MAC
+	EtherType      uint16
+	SrcIP          netip.Addr
+	DstIP          netip.Addr
+	SrcPort        uint16
+	DstPort        uint16
+	OffIP4         int
+	OffIP6         int
+	OffUDP         int
+	OffTCP         int
+	OffPayload     []int // acceptable start offsets of Frame.Payload()
+	End            int   // end of the decoded packet inside the frame: IPv4 total length / IPv6 40+payload length (bytes after it are link layer padding), else len(frame)
+	Proto          int   // IP protocol / next header, -1 if none
 }
 
 func has(xs []int, v int) bool {
@@ -257,6 +258,7 @@ func Decode(f []byte) Decoded {
 
 func decodeL4(f []byte, off int, d Decoded) Decoded {
 	p := f[off:]
+	d.dontCareBefore = d.DontCare
 	// Frame.Payload() for a bare IP payload: after the IP header (the IP start is tolerated for an unknown protocol,
 	// the documentation is silent there).
 	d.OffPayload = []int{off}
@@ -269,6 +271,11 @@ func decodeL4(f []byte, off int, d Decoded) Decoded {
 		}
 		if int(be.Uint16(p[4:6])) != len(p) {
 			d.DontCare = true // UDP length field != bytes present: acceptance is left open
+			// ... except for the first fragment of a fragmented IPv4 datagram (MF set, offset 0): the length field covers the
+			// whole datagram, the frame carries what fits the MTU - a well-formed frame of its class like any other
+			if d.OffIP4 != 0 && f[d.OffIP4+6]&0x20 != 0 && be.Uint16(f[d.OffIP4+6:])&0x1fff == 0 && int(be.Uint16(p[4:6])) > len(p) {
+				d.DontCare = d.dontCareBefore
+			}
 		}
 		d.OffUDP = off
 		d.SrcPort = be.Uint16(p[0:2])
@@ -421,7 +428,7 @@ func UDP(src, dst uint16, payload []byte) []byte {
 type TCPHdr struct {
 	Src, Dst uint16
 	Seq, Ack uint32
-	DataOff  int // words; 0 = 5 + options
+	DataOff  int    // words; 0 = 5 + options
 	Flags    uint16 // 12 bits: three reserved bits, NS, CWR ... FIN
 	Window   uint16
 	Csum     uint16
